@@ -20,7 +20,35 @@ deriving DecidableEq, Repr, Inhabited
 
 abbrev Matcher := Nat → QStr → Option Match
 
-/-! ### `QString::arg(const QString &)` (Qt 5.15 `findArgEscapes` / `replaceArgEscapes`) -/
+/-! ### Qt's place markers: `%`, an optional `L`, one or two digits (Qt 5.15 `findArgEscapes`)
+
+  `argScan` is the scanner of `QString::arg`, state by state; it defines what a place marker of a
+  template IS (the specification of C05 and the legacy analysis in Lemmas/RouteSubst.lean use it).
+  `Handler::route` itself no longer calls `arg()`: see `substitute` below. -/
+
+/-- `QChar::digitValue()` on UTF-16 code units, as runs `(first unit, length, value of the first)`:
+    ASCII digits, the decimal digits of the other scripts and the super/subscript, circled,
+    parenthesised … digits (dumped from Qt 5.15.8 by calling it on all 65536 units) -/
+def digitRuns : List (Nat × Nat × Nat) :=
+  [
+   (0x0030, 10, 0), (0x00B2, 2, 2), (0x00B9, 1, 1), (0x0660, 10, 0), (0x06F0, 10, 0), (0x07C0, 10, 0),
+   (0x0966, 10, 0), (0x09E6, 10, 0), (0x0A66, 10, 0), (0x0AE6, 10, 0), (0x0B66, 10, 0), (0x0BE6, 10, 0),
+   (0x0C66, 10, 0), (0x0CE6, 10, 0), (0x0D66, 10, 0), (0x0DE6, 10, 0), (0x0E50, 10, 0), (0x0ED0, 10, 0),
+   (0x0F20, 10, 0), (0x1040, 10, 0), (0x1090, 10, 0), (0x1369, 9, 1), (0x17E0, 10, 0), (0x1810, 10, 0),
+   (0x1946, 10, 0), (0x19D0, 10, 0), (0x19DA, 1, 1), (0x1A80, 10, 0), (0x1A90, 10, 0), (0x1B50, 10, 0),
+   (0x1BB0, 10, 0), (0x1C40, 10, 0), (0x1C50, 10, 0), (0x2070, 1, 0), (0x2074, 6, 4), (0x2080, 10, 0),
+   (0x2460, 9, 1), (0x2474, 9, 1), (0x2488, 9, 1), (0x24EA, 1, 0), (0x24F5, 9, 1), (0x24FF, 1, 0),
+   (0x2776, 9, 1), (0x2780, 9, 1), (0x278A, 9, 1), (0xA620, 10, 0), (0xA8D0, 10, 0), (0xA900, 10, 0),
+   (0xA9D0, 10, 0), (0xA9F0, 10, 0), (0xAA50, 10, 0), (0xABF0, 10, 0), (0xFF10, 10, 0)]
+
+def digitIn : List (Nat × Nat × Nat) → Nat → Option Nat
+  | [], _ => none
+  | (lo, len, v) :: r, c => if lo ≤ c ∧ c < lo + len then some (v + (c - lo)) else digitIn r c
+
+def digit16 (c : UInt16) : Option Nat := digitIn digitRuns c.toNat
+
+/-- the value of a digit (0 for a unit that is none) -/
+def dval (c : UInt16) : Nat := (digit16 c).getD 0
 
 inductive ArgTok
   | lit (c : UInt16)
@@ -34,8 +62,6 @@ inductive ArgSt
   | d1 (loc : Bool) (c : UInt16)       -- after '%'['L'] and one digit `c`
 deriving DecidableEq, Repr
 
-def digit16 (c : UInt16) : Option Nat := if 48 ≤ c ∧ c ≤ 57 then some (c.toNat - 48) else none
-
 def rawOf (loc : Bool) (ds : QStr) : QStr := (37 : UInt16) :: (if loc then (76 : UInt16) :: ds else ds)
 
 /-- one pass over the template, char by char -/
@@ -43,7 +69,7 @@ def argScan : ArgSt → QStr → List ArgTok
   | .normal, [] => []
   | .pct, [] => [.lit 37]
   | .pctL, [] => [.lit 37, .lit 76]
-  | .d1 loc c, [] => [.esc (c.toNat - 48) (rawOf loc [c])]
+  | .d1 loc c, [] => [.esc (dval c) (rawOf loc [c])]
   | .normal, c :: cs => if c = 37 then argScan .pct cs else .lit c :: argScan .normal cs
   | .pct, c :: cs =>
     if c = 76 then argScan .pctL cs
@@ -56,9 +82,9 @@ def argScan : ArgSt → QStr → List ArgTok
     else .lit 37 :: .lit 76 :: .lit c :: argScan .normal cs
   | .d1 loc d, c :: cs =>
     if (digit16 c).isSome then
-      .esc (10 * (d.toNat - 48) + (c.toNat - 48)) (rawOf loc [d, c]) :: argScan .normal cs
-    else if c = 37 then .esc (d.toNat - 48) (rawOf loc [d]) :: argScan .pct cs
-    else .esc (d.toNat - 48) (rawOf loc [d]) :: .lit c :: argScan .normal cs
+      .esc (10 * dval d + dval c) (rawOf loc [d, c]) :: argScan .normal cs
+    else if c = 37 then .esc (dval d) (rawOf loc [d]) :: argScan .pct cs
+    else .esc (dval d) (rawOf loc [d]) :: .lit c :: argScan .normal cs
 
 def minEsc : List ArgTok → Option Nat
   | [] => none
@@ -78,8 +104,57 @@ def qarg (tmpl a : QStr) : QStr :=
   | none => tmpl
   | some n => argFill n a toks
 
-/-- `foreach (replacement, capturedTexts().mid(1)) newPath = newPath.arg(replacement)` -/
-def substitute (tmpl : QStr) (caps : List QStr) : QStr := caps.foldl qarg tmpl
+/-! ### `substituteCaptures` / `markerAt` (src/src/handler.cpp): one pass, captures never rescanned -/
+
+/-- one or two digits at the start of `s`: how many, and the number they spell -/
+def digitsAt : QStr → Option (Nat × Nat)
+  | [] => none
+  | d :: r =>
+    match digit16 d with
+    | none => none
+    | some v =>
+      match r with
+      | [] => some (1, v)
+      | e :: _ => match digit16 e with | some w => some (2, 10 * v + w) | none => some (1, v)
+
+/-- `markerAt(tmpl, pos, &number)`, given the units AFTER the '%' at `pos`: length of the marker
+    (the '%' included) and its number; `none` is the C++ function's 0 -/
+def markerAt : QStr → Option (Nat × Nat)
+  | [] => none
+  | l :: r =>
+    if l = 76 then (digitsAt r).map fun p => (p.1 + 2, p.2)
+    else (digitsAt (l :: r)).map fun p => (p.1 + 1, p.2)
+
+/-- the first loop: the marker numbers that occur in the template (`present[]`), in order of
+    occurrence; `skip` = units of a recognised marker still to be stepped over (`i += length`) -/
+def presentGo : Nat → QStr → List Nat
+  | _, [] => []
+  | skip + 1, _ :: cs => presentGo skip cs
+  | 0, c :: cs =>
+    match (if c = 37 then markerAt cs else none) with
+    | some (len, n) => n :: presentGo (len - 1) cs
+    | none => presentGo 0 cs
+
+/-- `for (n = 0; n < number; ++n) rank += present[n]` -/
+def rank (present : List Nat) : Nat → Nat
+  | 0 => 0
+  | n + 1 => rank present n + (if present.contains n then 1 else 0)
+
+/-- the second loop: a marker whose number has rank `k` among the numbers present becomes the
+    k-th capture if there is one and stays as spelled otherwise; everything else is copied -/
+def fillGo (present : List Nat) (caps : List QStr) : Nat → QStr → QStr
+  | _, [] => []
+  | skip + 1, _ :: cs => fillGo present caps skip cs
+  | 0, c :: cs =>
+    match (if c = 37 then markerAt cs else none) with
+    | some (len, n) =>
+      (match caps[rank present n]? with
+       | some a => a
+       | none => (c :: cs).take len) ++ fillGo present caps (len - 1) cs
+    | none => c :: fillGo present caps 0 cs
+
+/-- `substituteCaptures(redirect.second, redirect.first.capturedTexts().mid(1))` -/
+def substitute (tmpl : QStr) (caps : List QStr) : QStr := fillGo (presentGo 0 tmpl) caps 0 tmpl
 
 /-! ### the handler tree -/
 
